@@ -29,6 +29,8 @@ def handler(st, opts):
     if op == "fast_matvec":
         A = rand_tt(tt, list(zip(M, N)), cfg["r"], gen, dt, cfg["data"] == "decay")
         x = rand_tt(tt, N, cfg["r"], gen, dt, cfg["data"] == "decay")
+        if cfg.get("scale", "unit") == "small":
+            A = 1e-5 * A
         ref = (dense_op(A) @ project.dense(x.cores).reshape(-1)).reshape(M)
         g = rand_tt(tt, M, 2, gen, dt) if cfg["guess"] != "none" else None
         kw = {}
@@ -69,6 +71,9 @@ def handler(st, opts):
         else:
             xt = rand_tt(tt, N, cfg["r"], gen, dt)
             b = (A @ xt).round(1e-14)
+        if cfg.get("scale", "unit") == "small":      # badly scaled data: the residual bound is relative
+            b = 1e-5 * b
+            A = 1e3 * A
         Ad = dense_op(A); bd = project.dense(b.cores).reshape(-1)
         g = rand_tt(tt, N, 2, gen, dt) if cfg["guess"] != "none" else None
         prec = None if cfg["prec"] == "none" else cfg["prec"]
